@@ -293,7 +293,7 @@ func remoteVerdict(m *model, w *world, p peer.ID, a ma.Multiaddr) (tri, string) 
 
 func TestOutboundSwarm(t *testing.T) {
 	name := t.Name()
-	hx.Check(t, 600, 12000, 0, func(rt *rapid.T) {
+	hx.Check(t, 1500, 30000, 0, func(rt *rapid.T) {
 		w := drawWorld(rt)
 		sc := drawOutScenario(rt, w)
 		var (
@@ -310,7 +310,7 @@ func TestOutboundSwarm(t *testing.T) {
 			m := newModel()
 			var ob obs
 			for _, o := range sc.setup {
-				runOp(rt, g, st, w, m, o, &ob, &hist)
+				runOp(rt, g, st, w, m, o, &ob, &hist, false)
 			}
 			if sc.reopen {
 				// the swarm is gated by rules that were read back from the datastore
@@ -389,7 +389,7 @@ func TestOutboundSwarm(t *testing.T) {
 					synctest.Wait()
 					nf.take()
 					for _, o := range sc.change {
-						runOp(rt, g, st, w, m, o, &ob, &hist)
+						runOp(rt, g, st, w, m, o, &ob, &hist, false)
 					}
 					time.Sleep(time.Minute) // dial back-off of failed addresses (5 s) is over
 					synctest.Wait()
